@@ -94,6 +94,7 @@ Proof.
   intros Happ. induction fuel as [|f IH]; intros acc b; cbn [msg_loop]; [discriminate|].
   destruct b as [|b0 b']; [discriminate|].
   destruct (uvarint (b0 :: b')) as [[x b1]|]; [|discriminate].
+  destruct (x / 8 =? 0); [discriminate|].
   pose proof (read_wval_no_crash (x mod 8) b1) as NC.
   destruct (read_wval (x mod 8) b1) as [[v b2]| |]; [|discriminate|contradiction].
   pose proof (Happ acc (x / 8) v) as NA.
@@ -223,6 +224,7 @@ Proof.
   cbn [msg_loop]. destruct b as [|b0 b']; [reflexivity|].
   destruct (uvarint (b0 :: b')) as [[x b1]|] eqn:U; [|reflexivity].
   apply uvarint_shorter in U.
+  destruct (x / 8 =? 0); [reflexivity|].
   destruct (read_wval (x mod 8) b1) as [[v b2]| |] eqn:R; [|reflexivity|reflexivity].
   apply read_wval_shorter in R.
   destruct (apply acc (x / 8) v); [|reflexivity|reflexivity].
@@ -236,6 +238,7 @@ Lemma msg_loop_S A (apply : A -> N -> wval -> res A) f acc b :
   | _ => match uvarint b with
          | None => RErr
          | Some (x, b1) =>
+           if x / 8 =? 0 then RErr else
            match read_wval (x mod 8) b1 with
            | RErr => RErr
            | RCrash => RCrash
@@ -257,6 +260,7 @@ Lemma parse_msg_unfold A (apply : A -> N -> wval -> res A) acc b :
   | _ => match uvarint b with
          | None => RErr
          | Some (x, b1) =>
+           if x / 8 =? 0 then RErr else
            match read_wval (x mod 8) b1 with
            | RErr => RErr
            | RCrash => RCrash
@@ -272,6 +276,7 @@ Proof.
   unfold parse_msg. rewrite msg_loop_S. destruct b as [|b0 b']; [reflexivity|].
   destruct (uvarint (b0 :: b')) as [[x b1]|] eqn:U; [|reflexivity].
   apply uvarint_shorter in U.
+  destruct (x / 8 =? 0); [reflexivity|].
   destruct (read_wval (x mod 8) b1) as [[v b2]| |] eqn:R; [|reflexivity|reflexivity].
   apply read_wval_shorter in R.
   destruct (apply acc (x / 8) v); [|reflexivity|reflexivity].
@@ -280,13 +285,13 @@ Qed.
 
 (* ================= one field at a time ================= *)
 
-Definition small_field (f : N) : Prop := f < 1152921504606846976.   (* 2^60 *)
+Definition small_field (f : N) : Prop := 0 < f /\ f < 1152921504606846976.   (* a real field number, < 2^60 *)
 
 Lemma tag_decode f w rest :
   small_field f -> w < 8 ->
   uvarint (pb_tag f w ++ rest) = Some (f * 8 + w, rest) /\ (f * 8 + w) mod 8 = w /\ (f * 8 + w) / 8 = f.
 Proof.
-  unfold small_field. intros Hf Hw. unfold pb_tag. split; [|split].
+  unfold small_field. intros [_ Hf] Hw. unfold pb_tag. split; [|split].
   - apply uvarint_put_uvarint. unfold two64. lia.
   - rewrite N.add_comm, N.mod_add by lia. apply N.mod_small; lia.
   - rewrite N.add_comm, N.div_add by lia. rewrite N.div_small by lia. lia.
@@ -307,7 +312,8 @@ Proof.
   destruct (pb_tag f w ++ payload ++ rest) as [|b0 b'] eqn:E.
   { exfalso. unfold pb_tag in E. apply app_eq_nil in E. destruct E as [E _].
     exact (put_uvarint_nonempty _ E). }
-  rewrite U, Hm, Hd, HR. reflexivity.
+  rewrite U, Hm, Hd, HR.
+  destruct (N.eqb_spec f 0) as [Z|_]; [destruct Hf as [Hf _]; lia|]. reflexivity.
 Qed.
 
 Lemma read_wval_varint v rest : v < two64 -> read_wval 0 (put_uvarint v ++ rest) = ROk (WVar v, rest).
@@ -362,7 +368,7 @@ Qed.
 Lemma parse_msg_nil A (apply : A -> N -> wval -> res A) acc : parse_msg apply acc [] = ROk acc.
 Proof. reflexivity. Qed.
 
-Ltac small := unfold small_field; reflexivity.
+Ltac small := unfold small_field; split; reflexivity.
 
 (* ================= Aux ================= *)
 
